@@ -15,6 +15,7 @@
 import GraphiqModel.Proofs.Circuit
 import GraphiqModel.Proofs.Clifford1
 import GraphiqModel.Proofs.DMCompileH
+import GraphiqModel.Proofs.DMCompileExec
 namespace Graphiq.C01
 open Graphiq Graphiq.PRow Graphiq.Tab
 
@@ -152,6 +153,24 @@ theorem dm_result_is_pure_state (ne np : Nat) (d : Det) (script : List Bool) (op
     rw [← h]
     exact hstate_pure (ne + np) s (stabRun_inv ne np d script ops hwf s hs)
 
+open Graphiq.DMX Graphiq.Hilbert in
+/-- **The executable exact model of the density-matrix backend agrees with the stabilizer model** — the model that the
+    correspondence runs drive against the real `DensityMatrixCompiler` (`Noise.compileDM`, noise simulation off: `Mat`
+    over ℚ[i] with numpy indices, Kronecker-built gate matrices, projective measurement, classically controlled gates,
+    measure-and-reset).  For every circuit (translated to its unwrapped operation sequence `trOps`), every register mix
+    and both forced settings: whenever the stabilizer compile loop returns `s`, `compileDM` returns a matrix `m` of size
+    `2^(ne+np)` with `m[idx a, idx b] = ρ(s.t) a b` for all basis strings (`idx` = big-endian numpy index, photons
+    first), and its classical registers are the final record of `s`. -/
+theorem executable_dm_model_agrees (ne np nc : Nat) (det : Bool) (script : List Bool) (ops : List COp)
+    (hwf : ∀ op, op ∈ ops → op.WF np) (s : RunState) (h : stabRun ne np (detOf det) script ops = some s) :
+    ∃ m : Mat, Noise.compileDM false ne np nc det (trOps ops)
+        = .ok { ρ := some m, creg := (finalRecord nc s.writes).map fun b => if b then 1 else 0 } ∧
+      m.n = 2 ^ (ne + np) ∧
+      ∀ a b : Bits (ne + np), gqC (m.e (idx (ne + np) a) (idx (ne + np) b)) = rho (ne + np) (STab.ofTab s.t) a b := by
+  obtain ⟨m, e, hrep⟩ := compileDM_eq_stab ne np nc det script ops hwf s h
+  rw [regsOf_eq_finalRecord] at e
+  exact ⟨m, e, hrep.1, hrep.2⟩
+
 /-- **A reset leaves the measured qubit in |0⟩, density-matrix side**: on a qubit with a definite Z value (which the
     control of a measure-and-reset has after its measurement) the Kraus pair `|0⟩⟨0|, |0⟩⟨1|` of
     `get_reset_qubit_kraus` is exactly `reset_z` of the stabilizer backend. -/
@@ -202,5 +221,13 @@ example (d : Det) (script : List Bool) :
     ∃ s, stabRun 1 1 d script bell = some s ∧ DMH.dmRunH 1 1 d script bell = some (DMH.hstate 2 s) := by
   obtain ⟨s, hs⟩ := compile_returns 1 1 d script bell bell_inRange
   exact ⟨s, hs, DMH.dmRunH_eq_stab 1 1 d script bell bell_wf s hs⟩
+
+/-- the executable density-matrix model returns on it too, with the registers of the stabilizer run (forced 1) -/
+example : ∃ (s : RunState) (m : Mat), stabRun 1 1 .one [] bell = some s ∧
+    Noise.compileDM false 1 1 2 true (DMX.trOps bell)
+      = .ok { ρ := some m, creg := (finalRecord 2 s.writes).map fun b => if b then 1 else 0 } := by
+  obtain ⟨s, hs⟩ := compile_returns 1 1 .one [] bell bell_inRange
+  obtain ⟨m, e, _⟩ := executable_dm_model_agrees 1 1 2 true [] bell bell_wf s hs
+  exact ⟨s, m, hs, e⟩
 
 end Graphiq.C01
